@@ -12,7 +12,7 @@ Inductive opn :=
   | OAdd | OSub | OMul | ONeg | OPos | ORAdd | ORSub | ORMul | ODiv | OKron | OOnes | OZeros | ORank1
   | OMatmul | OTr | OEye | OForward
   | ODot | ONorm2 | OSum | OBilinear
-  | OCat | OPad | OMprod | ODiag | OToTTM | OConj | OClone.
+  | OCat | OPad | OMprod | ODiag | OToTTM | OConj | OClone | OMeshgrid.
 
 Section Expr.
 Context {R : Type} {RO : RingOps R}.
@@ -176,6 +176,20 @@ Definition apply_op (o : opn) (args : list val) (ia : list (list nat)) : val :=
   | OPos, [VT x] => VT x
   | OKron, [VT x; VT y] => VT (kron_tt x y)
   | OKron, [VT x; VNone] => VT x
+  | ORank1, _ :: _ =>      (* rank1TT(list of vectors): cores e[None, ..., None] *)
+      match fold_right (fun v acc => match v, acc with VD d, Some l => Some ((nth 0 (dshape d) 0%nat, fun i => dget d [i]) :: l) | _, _ => None end) (Some []) args with
+      | Some vs => VT (rank1 vs)
+      | None => VErr EModel
+      end
+  | OMeshgrid, _ :: _ =>   (* meshgrid(vectors)[i]: ones cores everywhere but the vector on axis i *)
+      match ia with
+      | [[i]] =>
+          match fold_right (fun v acc => match v, acc with VD d, Some l => Some ((nth 0 (dshape d) 0%nat, fun i => dget d [i]) :: l) | _, _ => None end) (Some []) args with
+          | Some vs => VT (rank1 (map (fun kv => if Nat.eqb (fst kv) i then snd kv else (fst (snd kv), fun _ => rI)) (combine (seq 0 (length vs)) vs)))
+          | None => VErr EModel
+          end
+      | _ => VErr EModel
+      end
   | OOnes, [] => match ia with [ns] => VT (ones_tt ns) | _ => VErr EModel end
   | OZeros, [] => match ia with [ns] => VT (zeros_tt ns) | _ => VErr EModel end
   | _, _ => VErr EModel
@@ -254,6 +268,21 @@ Definition dapply_op (o : opn) (args : list val) (ia : list (list nat)) : val :=
   | OPos, [VD a] => VD a
   | OKron, [VD a; VD b] => VD (douter a b)
   | OKron, [VD a; VNone] => VD a
+  | ORank1, _ :: _ =>
+      match fold_right (fun v acc => match v, acc with VD d, Some l => Some (d :: l) | _, _ => None end) (Some []) args with
+      | Some ds => VD (mkD (map (fun d => nth 0 (dshape d) 0%nat) ds)
+                          (fun idx => fold_right rmul rI (map (fun p => dget (fst p) [snd p]) (combine ds idx))))
+      | None => VErr EModel
+      end
+  | OMeshgrid, _ :: _ =>
+      match ia with
+      | [[i]] =>
+          match fold_right (fun v acc => match v, acc with VD d, Some l => Some (d :: l) | _, _ => None end) (Some []) args with
+          | Some ds => VD (mkD (map (fun d => nth 0 (dshape d) 0%nat) ds) (fun idx => dget (nth i ds (mkD [] (fun _ => rO))) [nth i idx 0%nat]))
+          | None => VErr EModel
+          end
+      | _ => VErr EModel
+      end
   | OOnes, [] => match ia with [ns] => VD (dconst ns rI) | _ => VErr EModel end
   | OZeros, [] => match ia with [ns] => VD (dconst ns rO) | _ => VErr EModel end
   | _, _ => VErr EModel
